@@ -101,6 +101,7 @@ type Tr struct {
 	specDefs map[string]*specDef
 	pseudoArgs []ssa.Value
 	onlyInstrs map[ssa.Instruction]bool // when set: translate only these (plus control flow)
+	aliases  map[string]string // contract identifier -> local of the current source (a renamed local, see rebindRenamedLocals)
 }
 
 type deferRec struct {
